@@ -248,7 +248,13 @@ EXTRA_TRUST = {
 
 
 def trusted_base(pid):
-    return PRELUDE_TRUST + EXTRA_TRUST.get(pid, [])
+    extra = list(EXTRA_TRUST.get(pid, []))
+    note = MANIFEST_TEXT.get(pid, {}).get('note')
+    if note:
+        extra.append('per-property note: ' + note)
+    if any(u in ('u_mb2_builder', 'u_hdr_builder') for u, _ in PROPS.get(pid, {}).get('v', [])):
+        extra.append('contracts/verus/boxed_spec.rs: ASSUMED contract of multiboot2_common::new_boxed (checked by Kani for bounded inputs under C16) and axiom_safe_ref_wf (references to values held by safe code are aligned and dereferenceable)')
+    return PRELUDE_TRUST + extra
 
 
 ASSUMPTIONS = {
@@ -258,7 +264,10 @@ ASSUMPTIONS = {
 
 
 def assumptions(pid):
-    return ASSUMPTIONS.get(pid, []) + ['arithmetic overflow is always an obligation (never a controlled panic); Kani checks dev (overflow-checks=on) semantics only']
+    gen = ['references are identified with their values in the Verus spec logic (address observers are functions of the value): two distinct objects with identical contents are conflated',
+           'Stacked/Tree Borrows aliasing not modelled (allocation-level extents)',
+           'bounded Kani harnesses are listed under coverage.bounded with their bounds and are not counted as proved']
+    return ASSUMPTIONS.get(pid, []) + gen + ['arithmetic overflow is always an obligation (never a controlled panic); Kani checks dev (overflow-checks=on) semantics only']
 
 
 # ---------------------------------------------------------------------------
